@@ -87,6 +87,16 @@ func (f *ReverseBoltCursor) Seek(val []byte) {
 	}
 }
 
+// stripKeyType removes the leading field type from a raw typed key. Only a missing key, which marks the end of the
+// cursor, yields nil. A key which consists of nothing but the field type, such as the empty string, yields an empty,
+// non-nil value, so that it's still a valid cursor position.
+func stripKeyType(key []byte) []byte {
+	if len(key) == 0 {
+		return nil
+	}
+	return key[1:]
+}
+
 func NewTypedForwardBoltCursor(cursor *bbolt.Cursor, fieldType FieldType) ast.SeekableSetCursor {
 	result := &TypedForwardBoltCursor{
 		BaseBoltCursor: BaseBoltCursor{
@@ -97,7 +107,7 @@ func NewTypedForwardBoltCursor(cursor *bbolt.Cursor, fieldType FieldType) ast.Se
 	}
 
 	key, _ := result.cursor.First()
-	_, result.key = GetTypeAndValue(key)
+	result.key = stripKeyType(key)
 
 	return result
 }
@@ -109,13 +119,13 @@ type TypedForwardBoltCursor struct {
 
 func (f *TypedForwardBoltCursor) Next() {
 	key, _ := f.cursor.Next()
-	_, f.key = GetTypeAndValue(key)
+	f.key = stripKeyType(key)
 }
 
 func (f *TypedForwardBoltCursor) Seek(val []byte) {
 	searchVal := PrependFieldType(f.fieldType, val)
 	key, _ := f.cursor.Seek(searchVal)
-	_, f.key = GetTypeAndValue(key)
+	f.key = stripKeyType(key)
 }
 
 func NewTypedReverseBoltCursor(cursor *bbolt.Cursor, fieldType FieldType) ast.SeekableSetCursor {
@@ -128,7 +138,7 @@ func NewTypedReverseBoltCursor(cursor *bbolt.Cursor, fieldType FieldType) ast.Se
 	}
 
 	key, _ := result.cursor.Last()
-	_, result.key = GetTypeAndValue(key)
+	result.key = stripKeyType(key)
 
 	return result
 }
@@ -140,7 +150,7 @@ type TypedReverseBoltCursor struct {
 
 func (f *TypedReverseBoltCursor) Next() {
 	key, _ := f.cursor.Prev()
-	_, f.key = GetTypeAndValue(key)
+	f.key = stripKeyType(key)
 }
 
 func (f *TypedReverseBoltCursor) Seek(val []byte) {
@@ -149,6 +159,6 @@ func (f *TypedReverseBoltCursor) Seek(val []byte) {
 	if !bytes.Equal(searchVal, key) {
 		f.Next()
 	} else {
-		_, f.key = GetTypeAndValue(key)
+		f.key = stripKeyType(key)
 	}
 }
